@@ -22,6 +22,8 @@ import (
 	"runtime/pprof"
 	"strings"
 	"sync"
+	"sync/atomic"
+	"time"
 
 	"github.com/matthewhartstonge/argon2"
 
@@ -304,7 +306,6 @@ func buildTables(thorough bool) *tables {
 
 	t.ipsets = [][]string{
 		{},
-		{"127.0.0.1/32"},
 		{"10.0.0.0/8"},
 		{"::1/128"},
 		{"fe80::/10"},
@@ -314,6 +315,7 @@ func buildTables(thorough bool) *tables {
 	}
 	if thorough {
 		t.ipsets = append(t.ipsets,
+			[]string{"127.0.0.1/32"},
 			[]string{"0.0.0.0/0"},
 			[]string{"192.0.2.1"},              // bare IPv4
 			[]string{"10.9.9.9/8"},             // host bits set
@@ -367,13 +369,13 @@ func buildTables(thorough bool) *tables {
 		{"::ffff:10.1.2.3", net.ParseIP("::ffff:10.1.2.3")},
 		{"11.0.0.0", net.ParseIP("11.0.0.0")},
 		{"febf:ffff::1", net.ParseIP("febf:ffff::1")},
-		{"fec0::1", net.ParseIP("fec0::1")},
 		{"nil", nil},
 	}
 	if thorough {
 		t.ips = append(t.ips,
 			clientIP{"127.0.0.1(4B)", net.IP{127, 0, 0, 1}},
 			clientIP{"fe80::1", net.ParseIP("fe80::1")},
+			clientIP{"fec0::1", net.ParseIP("fec0::1")},
 			clientIP{"192.0.2.1", net.ParseIP("192.0.2.1")},
 			clientIP{"9.255.255.255", net.ParseIP("9.255.255.255")},
 			clientIP{"::2", net.ParseIP("::2")},
@@ -490,22 +492,49 @@ func newAcc(phase string) *acc {
 }
 
 type checker struct {
-	r  *vcommon.Run
-	t  *tables
-	mu sync.Mutex
+	r    *vcommon.Run
+	t    *tables
+	hist map[string]int
 }
 
 func (ck *checker) merge(a *acc) {
 	ck.r.Eval(int(a.evals))
 	for k := range a.distinct {
-		s := fmt.Sprintf("%s ver=%s %s -> admitted=%v", a.phase, verNames[k.ver], whyString(k.why), k.admitted)
+		w := whyString(k.why)
+		s := fmt.Sprintf("%s ver=%s %s -> admitted=%v", a.phase, verNames[k.ver], w, k.admitted)
 		if !k.admitted {
 			s += fmt.Sprintf(" ask=%v", k.ask)
 		}
+		before := ck.r.DistinctCount()
 		ck.r.Distinct(s)
+		if ck.r.DistinctCount() == before {
+			continue
+		}
+		// histogram of the distinct classes (evidence: the intended collisions really occur)
+		ck.hist[fmt.Sprintf("%s/admitted=%v", a.phase, k.admitted)]++
+		if !k.admitted && k.ask {
+			ck.hist["rejected-asking-for-credentials"]++
+		}
+		if strings.Contains(w, "dc,") {
+			ck.hist["with-dontcare-ip-containment"]++
+		}
+		if k.admitted {
+			for _, part := range strings.Split(w, "|") {
+				f := strings.Split(part, ",")
+				if f[0] != "notcontained" && f[0] != "noip" && f[1] != "none" && f[2] != "usermismatch" && f[2] != "passmismatch" && f[2] != "vfalse" {
+					ck.hist["admitting-entry/ip="+f[0]]++
+					ck.hist["admitting-entry/perm="+f[1]]++
+					ck.hist["admitting-entry/cred="+f[2]]++
+				}
+			}
+		}
 	}
 	for k := range a.swaps {
+		before := ck.r.DistinctCount()
 		ck.r.Distinct("swap " + whyString(k[0]) + " => " + whyString(k[1]))
+		if ck.r.DistinctCount() != before {
+			ck.hist["swap/decision-changed-by-reload"]++
+		}
 	}
 }
 
@@ -627,6 +656,9 @@ func (ck *checker) runList(m *auth.Manager, list []entry, a *acc, withVerifiers 
 						want, why := t.expect(list, ver, ipI, actI, pathI, supI)
 						for _, va := range t.variants {
 							exI, ask := va.extra, va.ask
+							if ver != verNil && exI != 0 && !t.thorough {
+								continue // quick: the token/HLS/query variant only without a custom verifier
+							}
 							ex := t.extras[exI]
 							req.Protocol, cred.Token, req.Query = ex.proto, ex.token, ex.query
 							{
@@ -729,7 +761,7 @@ func main() {
 		defer pprof.StopCPUProfile()
 	}
 	t := buildTables(r.Thorough())
-	ck := &checker{r: r, t: t}
+	ck := &checker{r: r, t: t, hist: map[string]int{}}
 
 	// sanity of the alphabet itself (harness errors, not verdicts): the hashes verify in the reference sense
 	for _, c := range t.creds {
@@ -842,11 +874,26 @@ func main() {
 		"hot-swap: every ordered pair of lists from the sub-alphabet with ReloadInternalUsers in between; " +
 		"distinct = (phase, verifier, per-entry (IP reason, permission reason, credential reason), decision, AskCredentials)"
 
+	// internal deadline (never a failure): lists not started before it are counted and reported
+	budget := 150 * time.Second
+	if r.Thorough() {
+		budget = 13 * time.Minute
+	}
+	deadline := time.Now().Add(budget)
+	var skipped atomic.Int64
+	skippedBy := map[string]int64{}
+	var skipMu sync.Mutex
 	runPhase := func(phase string, lists [][]entry) {
 		accs := make([]*acc, len(lists))
+		before := skipped.Load()
+		defer func() { skippedBy[phase] = skipped.Load() - before }()
 		vcommon.Parallel(len(lists), func(i int) {
 			a := newAcc(phase)
 			accs[i] = a
+			if time.Now().After(deadline) {
+				skipped.Add(1)
+				return
+			}
 			list := lists[i]
 			m := &auth.Manager{Method: conf.AuthMethodInternal, InternalUsers: t.decode(list)}
 			ck.runList(m, list, a, t.plainOnly(list), phase)
@@ -859,10 +906,6 @@ func main() {
 	r.Set("lists_single", len(singles))
 	runPhase("pair", pairs)
 	r.Set("lists_pair", len(pairs))
-	if len(triples) > 0 {
-		runPhase("triple", triples)
-		r.Set("lists_triple", len(triples))
-	}
 
 	// ---- phase 4: hot swap. One manager, list L1, request, ReloadInternalUsers(L2), same request:
 	// both decisions must follow the list in force.
@@ -882,6 +925,13 @@ func main() {
 		vcommon.Parallel(n, func(i int) {
 			a := newAcc("swap")
 			accs[i] = a
+			if time.Now().After(deadline) {
+				skipped.Add(1)
+				skipMu.Lock()
+				skippedBy["swap"]++
+				skipMu.Unlock()
+				return
+			}
 			for j := 0; j < n; j++ {
 				m := &auth.Manager{Method: conf.AuthMethodInternal, InternalUsers: t.decode(swapLists[i])}
 				ck.swap(m, swapLists[i], swapLists[j], a)
@@ -891,6 +941,10 @@ func main() {
 			ck.merge(a)
 		}
 		r.Set("hot_swap_list_pairs", n*n)
+	}
+	if len(triples) > 0 {
+		runPhase("triple", triples)
+		r.Set("lists_triple", len(triples))
 	}
 
 	// samples
@@ -904,8 +958,14 @@ func main() {
 		"actions": len(actions), "paths": len(t.paths), "client_ips": len(t.ips), "supplied_credentials": len(t.sup),
 		"verifiers": nVer, "pair_sub_alphabet": len(sub),
 	})
-	// decision histogram over distinct classes
-	r.Exhaustive = true
+	r.Set("class_histogram", ck.hist)
+	r.Exhaustive = skipped.Load() == 0
+	if skipped.Load() != 0 {
+		r.Set("bound_completed", fmt.Sprintf("internal deadline of %v hit: lists not run per phase %v (every list that was started ran against all requests)", budget, skippedBy))
+		r.Note("deadline hit, %d lists not run", skipped.Load())
+	} else {
+		r.Set("bound_completed", "all phases completed")
+	}
 	r.Assumptions = []string{
 		"user lists are those conf.Validate accepts: non-empty user, 'any' without password, hashed credentials never combined with a custom (digest) verifier",
 		"request paths are valid path names not starting with '~' (a request path literally equal to a '~' permission is not judged)",
